@@ -1575,12 +1575,10 @@ ElemNumber::toRoman(
     {
         theResult = XalanUnicode::charDigit_0;
     }
-    else if (val > 3999)
-    {
-        theResult = s_errorString;
-    }
     else
     {
+        // Values above 3999 are written with as many
+        // leading M's as they have thousands.
         theResult.clear();
 
         size_t  place = 0;
